@@ -103,9 +103,18 @@ fn base_cfg(prop: &str, world: WorldKind, colls: u8, oracles: u32, r: &mut Rng) 
     // a third of the expiring-key runs use the narrow instantiation (8-bit clock)
     // ... and a quarter of the ordered map / set runs the plain one (MapTree<i32, u32>,
     // SetTree<i32, i32>: small uninstrumented types, so not for the callback-panic check)
+    // (and a tenth of either the fat one: 280-byte keys / 272-byte values)
     let key_ty = match world {
-        WorldKind::Key => r.chance(1, 3) as u8,
-        WorldKind::Map | WorldKind::Set => (r.chance(1, 4) && oracles & O_TORN == 0) as u8,
+        WorldKind::Key => match r.below(10) {
+            0 | 1 | 2 => 1,
+            3 => 2,
+            _ => 0,
+        },
+        WorldKind::Map | WorldKind::Set => match r.below(20) {
+            0..=4 if oracles & O_TORN == 0 => 1,
+            5 | 6 if oracles & O_TORN == 0 => 2,
+            _ => 0,
+        },
         // a third of the segment-tree runs: 8-bit expirations, a 20-byte value
         WorldKind::Seg => r.chance(1, 3) as u8,
     };
